@@ -530,9 +530,11 @@ func (e *kvEnv) step(s kvStep) string {
 		e.classes[fmt.Sprintf("ctx-dead:%d", s.D)] = true
 		e.classes["deadctx:"+s.C] = true
 	}
-	if s.C == "Del" && kvProfiles[e.c.P].mustFail() {
-		// one failure PER KEY on the shards' breakers within a single call: fresh
-		// breakers before and after, so that "at most 4 failures per instance" holds
+	if s.C == "Del" && (kvProfiles[e.c.P].mustFail() || (s.X && s.D == 2)) {
+		// rejected credentials or an expired deadline (context.DeadlineExceeded is not
+		// acceptable to the breaker): one failure PER KEY on the shards' breakers within a
+		// single call. Fresh breakers before and after, so that "at most 4 failures per
+		// instance" holds (a Del names at most 5 keys, and 5 failures cannot open a breaker)
 		e.newStore()
 		defer e.newStore()
 	}
